@@ -104,7 +104,8 @@ PERSIST_ASSUME = ["goleveldb applies a batch atomically in record order and a cl
                   "sequential histories only (concurrency is C11); the timer goroutine is the explicit event Tick",
                   "memorydb's ad-hoc 'not found' errors are classified as not-found by their text"]
 PROPS["C08"] = {
-  "runs": [{"component": "persist", "labels": {1, 2, 3, 4, 5, 6}, "n_quick": 1500, "n_thorough": 6000}],
+  # label 6 (what RangeKeys visits on an OPEN persister = what has been flushed so far) is flush timing: C09/C10's subject, not compared here
+  "runs": [{"component": "persist", "labels": {1, 2, 3, 4, 5}, "n_quick": 1500, "n_thorough": 6000}],
   "anchors": ["leveldb/leveldb.go", "leveldb/leveldbSerial.go", "leveldb/batch.go", "leveldb/serialActions.go", "memorydb/memorydb.go", "sharded/shardedDB.go"],
   "exhaustive_claim": True,
   "rule": "exhaustive (2 keys x values {01, empty}; kinds DB and SerialDB): all sequences of 5 writes (Put k v / Remove k; first write on key a, the two keys being interchangeable) with MaxBatchSize 2, all sequences of 3 ops incl. Get with MaxBatchSize 1 and 3; memorydb: all sequences of 5 ops (thorough: 6 writes / 4 ops / 6 ops); every prefix observed. "
